@@ -44,8 +44,31 @@ ORDER_UNIVERSES = {
 }
 
 
-def _perm(sel):
-    return list(itertools.permutations(range(4)))[sel]
+def _perm(sel, n=4):
+    return list(itertools.permutations(range(n)))[sel]
+
+
+BIG_UNIVERSES = {
+    "ints5": [0, 8, 16, 24, 32],
+    "mixed5": [0, "a", None, (1,), 2.5],
+    "frozensets5": [frozenset([0, 8]), frozenset([8, 16]), frozenset(), frozenset([16]), frozenset([0, 8, 16])],
+}
+
+
+def ob_order5(p1: int, rev: bool, depth2: bool) -> bool:
+    """
+    pre: 0 <= p1 <= 119
+    post: _
+    """
+    H.enter()
+    a = H.select_bisect(p1, 0, 119)
+    rv, d2 = bool(rev), bool(depth2)
+    with H.native():
+        import joblib
+        kind, uni = H.P("kind"), BIG_UNIVERSES[H.P("universe")]
+        x = _build(kind, uni, _perm(a, 5), d2)
+        y = _build(kind, uni, _perm(119 if rv else 0, 5), d2)
+        return H.verdict(joblib.hash(x) == joblib.hash(y), "%s built as %r and as %r hash differently" % (kind, x, y))
 
 
 def _build(kind, items, order, depth2):
@@ -200,6 +223,12 @@ def obligations(tier, seed):
                       ("floats", [1.5, -3.0, 0.0, 7.25]), ("mixed", [1, "a", None, [2]])]:
         obs.append({"name": "canon/%s" % nm, "fn": "ob_canon", "mode": "S", "params": {"items": items}, "timeout": 300,
                     "bounds": "all 24 iteration orders (symbolic permutation) of 4 %s elements" % nm})
+    if tier == "thorough":
+        for kind in ("dict", "set", "frozenset"):
+            for uni in BIG_UNIVERSES:
+                obs.append({"name": "order5/%s/%s" % (kind, uni), "fn": "ob_order5", "mode": "S",
+                            "params": {"kind": kind, "universe": uni}, "timeout": 900,
+                            "bounds": "all 120 insertion orders of 5 items (%s) against the first and the last order" % uni})
     obs.append({"name": "discr", "fn": "ob_discr", "mode": "S", "timeout": 600,
                 "bounds": "all 900 ordered pairs of a 30-value typed universe, md5 and sha1"})
     obs.append({"name": "alias", "fn": "ob_alias", "mode": "S", "timeout": 120,
